@@ -242,7 +242,7 @@ def main(argv):
                     unstable.append("%s/%s" % (c["name"], route))
                     continue
                 z = vsim.parse_log(a.log)["z"]
-                c["cpu_" + route[0]] = max(30, int(a.wall * 40) + 60)
+                c["cpu_" + route[0]] = max(30, int((a.cpu if a.cpu is not None else a.wall) * 40) + 60)
                 work.append((c, route, a, z.get("allocs", 0)))
         # start-up allocations of each route (a program that only prints)
         hello = {"name": "hello.as", "text": worlds.HELLO}
